@@ -54,6 +54,9 @@ func c12Specs() []c12Spec {
 			regexp2.OptionMaxCachedReplacerDataEntries(4), regexp2.OptionMaxCachedReplacerDataBytes(8),
 			regexp2.OptionMaxCachedRuneBufferLength(4096), regexp2.OptionMaxCachedReplaceBufferLength(4096)}},
 		{name: "timeout-iter", pat: `(a+)+!$|\d+`, timeout: 8 * time.Millisecond},
+		// a limit below four times the program's TrackCount: every call must fail the same way, the first one on a new
+		// runner included (the storage check that refuses it runs before the first instruction)
+		{name: "stacklimit-tiny", pat: `(a)|b`, opts: []regexp2.CompileOption{regexp2.OptionMaxBacktrackingStackSize(32)}},
 		{name: "nobitmap", pat: `[a-cx-z]+[\d_ ]`, opts: []regexp2.CompileOption{regexp2.OptionDisableCharClassASCIIBitmap()}},
 	}
 }
